@@ -188,6 +188,23 @@ CHECKS = {
         note='FIFO ready queue, director-owned futures are the only '
              'scheduling freedom; FileLock expiry stealing (600 s) is out of '
              'scope; thread/process tiers are stress-sampled'),
+    'C12': dict(
+        category='exploration', design='4/C12',
+        technique='runtime monitor: before/after ground-truth dump read '
+                  'without a consuming SELECT (backend table / maildir '
+                  'directory) + tagged conditions + what observers are told',
+        text='Programs of message commands (STORE variants, EXPUNGE, UID '
+             'EXPUNGE, body FETCHes with implicit \\Seen, MOVE/COPY out, '
+             'SEARCH, CLOSE + re-select, CHECK, IDLE, APPEND/COPY/MOVE into '
+             'the read-only mailbox) inside EXAMINE (dict, maildir) or inside '
+             'the backend-declared read-only mailbox (dict demo data) with '
+             '0-2 observers; flags, message set and the unclaimed-\\Recent '
+             'bits must be unchanged, STORE/EXPUNGE/MOVE must not answer OK, '
+             'CLOSE must answer OK and remove nothing, observers must receive '
+             'no untagged data.',
+        note='maildir has no backend-declared read-only mailbox; garbage '
+             'collection of UID-list records of already expunged messages by '
+             'CHECK is not counted as a change'),
 }
 
 NOT_YET = 'check not built yet in this round (see DESIGN.md section 4)'
